@@ -13,6 +13,8 @@ claimed = {
          "Bounds as C01; window assumption of C02."),
  "C10": ("Same exploration; after every push at most maxInFlight undelivered events, head not complete, every delivery outside Close has a cause (complete or over capacity).",
          "Bounds as C01; timeout far in the future so the time cause is excluded (C19 covers it)."),
+ "C19": ("Reassembler harness with every time.Now() reading a symbolic non-decreasing instant: a stale head is flushed by the first call after expiry, nothing is flushed for time before expiry, Close flushes everything once, post-Close Maintain/Close fail and deliver nothing, no Reassembler without a Stream.",
+         "Bounds: k<=2 (quick) / 3 (thorough) operations + Close; timeouts {-1s,0,5ms,2s,10^6h}; wall-clock-only instants; clock-dependent counterexamples are confirmed in the engine's concrete mode because the native clock cannot be forced."),
 }
 props=[json.loads(l)['id'] for l in open('/verif/properties.jsonl')]
 checks=[]
